@@ -106,6 +106,8 @@ class BacktrackSolver(Solver):
         :param log_level: the log level as a string
         """
         super().__init__(problem, log_level)
+        if not 4 <= stack_max_height <= 256:  # the index of the top of the stacks is an unsigned 8-bits integer
+            raise ValueError("stack_max_height should belong to [4, 256]")
         decision_domains = list(range(problem.shr_domain_nb)) if decision_domains is None else decision_domains
         logger.info(f"BacktrackSolver uses decision domains {decision_domains}")
         self.decision_domains = np.array(decision_domains, dtype=np.uint16)
@@ -541,6 +543,9 @@ def solve_one(
             statistics[STATS_IDX_SOLVER_SOLUTION_NB] += 1
             return get_solution(shr_domains_stack, stacks_top, dom_indices_arr, dom_offsets_arr)
         elif status == PROBLEM_UNBOUND:
+            if stacks_top[0] + 3 >= len(shr_domains_stack):
+                # a domain heuristic adds at most two choice points, the shaving algorithm needs one more
+                raise ValueError("The choice points stack is full, stack_max_height should be increased")
             dom_idx = var_heuristic_fct(var_heuristic_params, decision_domains, shr_domains_stack, stacks_top)
             events = dom_heuristic_fct(
                 dom_heuristic_params,
